@@ -340,6 +340,10 @@ class Translator:
             x = self.expand(e)
             if x is not None:
                 return self.f(x)
+        if isinstance(e, ast.Name) and self.canon is not None:
+            ce = self.canon(e)
+            if isinstance(ce, (ast.Call, ast.Compare, ast.BoolOp, ast.UnaryOp, ast.IfExp)) and quantifier(ce) is not None:
+                return self.f(ce)   # a local that holds a quantified condition
         if isinstance(e, ast.Call) and isinstance(e.func, ast.Name) and e.func.id == "bool" and len(e.args) == 1:
             return self.f(e.args[0])
         la = _len_arg(e)
